@@ -1,14 +1,17 @@
 import RoaringModel.Treemap
+import RoaringModel.Iter
 /-!
 # `RoaringTreemap` iterators (treemap/iter.rs): `To64Iter`, `Iter`, `IntoIter`, `BitmapIter`
 
-The inner 32-bit iterators (`bitmap::Iter`, `bitmap::IntoIter`) are **abstract** here: the model is
-parametrised by an `Inner` record of cursor operations.  The executable instance `Inner.list` is the C03
-*specification* of a 32-bit cursor — the list of remaining `u32` values with `next = pop front`,
-`next_back = pop back`, `advance_to n = filter (n ≤ ·)`, `advance_back_to n = filter (· ≤ n)`,
-`size_hint = length` — i.e. this file takes C03 as the behaviour of the inner iterator; the C12 theorems
-hold for every `Inner` that satisfies the C03 cursor laws (`Inner.Laws`, Props/C12.lean), so the mirrored
-32-bit iterator model (Iter.lean, family iter32) plugs in once it is merged.
+The inner 32-bit iterators (`bitmap::Iter`, `bitmap::IntoIter`) are a **parameter** here: the model is
+parametrised by an `Inner` record of cursor operations, so that the partition-level proofs are independent of
+the 32-bit layer.  `Inner.iter32` is the mirrored 32-bit iterator model (Iter.lean: one model for
+`bitmap::Iter` and `bitmap::IntoIter`) — the instance the driver runs and the unconditional C12 theorems are
+about.  `Inner.list` is the C03 *specification* of a 32-bit cursor — the list of remaining `u32` values with
+`next = pop front`, `next_back = pop back`, `advance_to n = filter (n ≤ ·)`, `advance_back_to n =
+filter (· ≤ n)`, `size_hint = length`.  The C12 theorems hold for every `Inner` that satisfies the C03 cursor
+laws (`InnerSpec`, Lemmas/TreemapIterBase.lean); `InnerSpec.iter32` (Lemmas/TreemapIter32.lean) proves them
+for `Inner.iter32` from the C03 theorems.
 `btree_map::Range` / `btree_map::IntoIter` are the remaining sub-list; `iter::FlatMap` is std's
 `FlattenCompat {iter, frontiter, backiter}` (trusted std behaviour).
 -/
@@ -34,6 +37,20 @@ def Inner.list : Inner where
   advanceTo := fun l n => l.filter (fun x => decide (n ≤ x))
   advanceBackTo := fun l n => l.filter (fun x => decide (x ≤ n))
   sizeHint := List.length
+
+/-- **the mirrored 32-bit iterator** (Iter.lean): `t.1.iter()` of `to64iter` (iter.rs:62) and
+    `t.1.into_iter()` of `to64intoiter` (iter.rs:102) both start as `Iter.new` on the containers
+    (`Bitmap.iter`); `Iter32` and `IntoIter32` run the same generic `next` / `next_back` /
+    `advance_to_impl` / `advance_back_to_impl` / `size_hint_impl`.  `sizeHint` is the `.0` that
+    `treemap::Iter::size_hint` reads (iter.rs:268-269) of `To64Iter::size_hint = self.inner.size_hint()`. -/
+def Inner.iter32 : Inner where
+  Cur := _root_.Roaring.Iter
+  iter := Bitmap.iter
+  next := _root_.Roaring.Iter.next
+  nextBack := _root_.Roaring.Iter.nextBack
+  advanceTo := _root_.Roaring.Iter.advanceTo
+  advanceBackTo := _root_.Roaring.Iter.advanceBackTo
+  sizeHint := fun it => (_root_.Roaring.Iter.sizeHint it).1
 
 def usizeMax : Nat := 18446744073709551615
 
